@@ -58,6 +58,10 @@ def cases(res):
     add(12, 96, 64, "noise", {"rate_control_mode": 2, "target_bit_rate": 50000, "intra_period_length": 7, "look_ahead_distance": 7})
     add(10, 64, 64, "motion", {"enable_overlays": 1, "tf_level": 1, "hierarchical_levels": 3})
     add(9, 64, 64, "motion", {"hierarchical_levels": 5})
+    # two-pass encoding (first pass statistics, then CQP / VBR second pass)
+    for sets in ({}, {"rate_control_mode": 1, "target_bit_rate": 150000}):
+        add(20, 128, 96, "motion", sets)
+        out[-1]["twopass"] = True
     for p in ((6, 4) if quick else (7, 6, 5, 4, 3, 2, 1, 0)):
         add(3, 80, 72, "motion", {"enc_mode": p, "enable_tpl_la": 1})
     if not quick:
@@ -113,7 +117,6 @@ def run(res):
                        "non-trivial = at least one picture encoded; each run is validated against Session.tla and its log searched for "
                        "sanitizer reports")
     res.assumptions += ["UBSan without alignment/shift-base/shift-exponent groups (the code base relies on them in SIMD glue and the entropy coder)",
-                        "two-pass encoding is not exercised (the recorder has no second pass)",
                         "configurations are taken from the accepted part of ParamDomain.tla; sizes up to 4096x2160 only in thorough"]
     cs = cases(res)
     tmo = 300 if res.tier == "quick" else 1500
